@@ -134,7 +134,8 @@ func (u *Universe) fromMsg(ti *TypeInfo, rv reflect.Value) ([]*Val, []byte, erro
 			iv := rv.Field(ti.oneofFI[f.Oneof])
 			wt := ti.wrap[f.Num]
 			sel := !iv.IsNil() && iv.Elem().Type() == reflect.PtrTo(wt) && !iv.Elem().IsNil()
-			isMsg := f.Kind == KMsg && f.Custom == CNone
+			// pointer message members carry presence themselves: (m ...) / (m); by-value ones (always_present) are (o (e ...)) / (o)
+			isMsg := f.Kind == KMsg && f.Custom == CNone && wt.Field(0).Type.Kind() == reflect.Ptr
 			if !sel {
 				if isMsg {
 					out = append(out, vNilMsg())
